@@ -23,6 +23,7 @@ RULE = (
     "or the whole sequence queued at once (burst), incl. bursts whose frames add up to more than 64 KiB; then the write stream is closed; oracle on the bytes recorded at the child's stdin: ends with LF, exactly one line per serialisable item in order, no raw CR/LF inside a line, each line "
     "is UTF-8 JSON equal (type-strict) to the item with absent optional members omitted, unserialisable items leave no bytes, stdin closed after the write stream closes; "
     "non-trivial = an unserialisable item followed by a serialisable one, or a payload with a raw line-break character, or a nested null; distinct = distinct sequence"
+    "; round 8: one shard and the enumeration also run in a fresh interpreter with the built-in model base (MCP_FORCE_FALLBACK=1); the same typed object changed in place and sent again (with nothing, a dict, a string, junk or another typed message in between)"
     "; added in rounds 6-7 of the seeded changes: child not reading stdin for 0.01..600 s (frame untouched or queued by the pipe); per-request streams registered and unanswered at close; logging at DEBUG"
 )
 ASSUMPTIONS = [
@@ -187,7 +188,24 @@ def check(case: Dict[str, Any]) -> Outcome:
 
     out = Outcome()
     items: List[List[Any]] = case["items"]
-    built = [build_item(s) for s in items]
+    built: List[Tuple[Any, Optional[Any]]] = []
+    mutate: Dict[int, Any] = {}
+    for k0, s in enumerate(items):
+        if s[0] == "resend":
+            # the application keeps one message object, changes it and sends it again (a progress notification with a new value,
+            # a request re-issued with other arguments): what reaches the child must be the object as it was when sent
+            j = s[1] % max(1, k0)
+            if k0 and items[j][0] == "typed" and items[j][1] in ("request", "notification") and built[j][1] is not None:
+                w2 = dict(built[j][1])
+                if not case.get("burst") and not case.get("real") and not case.get("stall"):  # (only when the earlier send is certain to have been serialised)
+                    w2["params"] = expand(s[2])
+                    mutate[k0] = w2["params"]
+                built.append((built[j][0], w2))
+            else:
+                w2 = {"jsonrpc": "2.0", "method": "resend/none", "params": expand(s[2])}
+                built.append((w2, w2))
+        else:
+            built.append(build_item(s))
     procs: List[FakeProcess] = []
     state: Dict[str, Any] = {}
 
@@ -212,6 +230,9 @@ def check(case: Dict[str, Any]) -> Outcome:
                         procs[0].stdin.stall_mode = stall[2]
                         procs[0].stdin.gate = g
                         asyncio.get_running_loop().call_later(stall[1], g.set)
+                    if k_ in mutate:
+                        await asyncio.sleep(0.01)  # (the earlier send of this object has been taken and serialised by now)
+                        obj.params = json.loads(json.dumps(mutate[k_]))
                     if case.get("burst"):
                         # the application queues everything at once; the writer task finds a backlog when it wakes
                         w.send_nowait(obj)
@@ -243,11 +264,11 @@ def check(case: Dict[str, Any]) -> Outcome:
     raw_break = any(w is not None and len(json.dumps(w)) < 20000 and any(c in json.dumps(w, ensure_ascii=False) for c in ("\\n", "\\r", " ", "\u0085")) for _, w in built)
     nested_null = any(w is not None and "null" in json.dumps(w)[:20000] for _, w in built)
     out.nontrivial = bad_then_good or raw_break or nested_null or bool(case.get("inbound"))
-    if case.get("burst"):
+    if case.get("burst") or mutate:
         out.nontrivial = True
     if case.get("stall") and case["stall"][0] < len(built):
         out.nontrivial = True
-    out.classes = (("unanswered-request-streams-registered",) if case.get("pending_streams") else ()) + (("burst",) if case.get("burst") else ()) + ((f"child-not-reading:{case['stall'][2]}:{'>=5s' if case['stall'][1] >= 5 else '<5s'}",) if case.get("stall") else ()) + tuple(c for c, v in (("bad-then-good", bad_then_good), ("raw-line-break-char", raw_break), ("nested-null", nested_null), ("inbound-batches", bool(case.get("inbound"))),
+    out.classes = (("backend:fallback",) if case.get("backend") == "fallback" else ()) + (("same-object-changed-and-sent-again",) if mutate else ()) + (("unanswered-request-streams-registered",) if case.get("pending_streams") else ()) + (("burst",) if case.get("burst") else ()) + ((f"child-not-reading:{case['stall'][2]}:{'>=5s' if case['stall'][1] >= 5 else '<5s'}",) if case.get("stall") else ()) + tuple(c for c, v in (("bad-then-good", bad_then_good), ("raw-line-break-char", raw_break), ("nested-null", nested_null), ("inbound-batches", bool(case.get("inbound"))),
                                         ("huge-line", any(w is not None and len(json.dumps(w)) > 65536 for _, w in built))) if v) + (f"items:{min(len(items), 12)}",) + (("real-child",) if case.get("real") else ())
 
     data: bytes = state.get("data", b"")
@@ -376,6 +397,9 @@ def cases(draw):
                 tgt["big-text"] = {"$big": draw(st.sampled_from([66000, 70000, 140000]))}
             elif r == 2 and it[0] == "dict":
                 tgt["deep"] = {"$deep": draw(st.sampled_from([100, 260, 300]))}
+    if draw(st.integers(0, 3)) == 0:
+        for _ in range(draw(st.integers(1, 3))):
+            its.insert(draw(st.integers(1, len(its))), ["resend", draw(st.integers(0, 11)), draw(json_objects(4))])
     case: Dict[str, Any] = {"items": its}
     if draw(st.integers(0, 5)) == 0:
         case["pending_streams"] = draw(st.integers(1, 3))
@@ -390,11 +414,15 @@ def cases(draw):
     return case
 
 
-def job_hyp(col: Collector, seed: int, tier: str, shard: int, n: int) -> None:
-    hyp_run(col, seed * 1000 + shard, cases(), check, n)
+def job_hyp(col: Collector, seed: int, tier: str, shard: int, n: int, backend: str = "default") -> None:
+    if backend == "fallback":
+        import chuk_mcp.protocol.mcp_pydantic_base as B
+
+        assert not B.PYDANTIC_AVAILABLE, "fallback job must run with MCP_FORCE_FALLBACK=1"
+    hyp_run(col, seed * 1000 + shard, cases().map(lambda c: dict(c, backend=backend) if backend != "default" else c), check, n)
 
 
-def job_positions(col: Collector, seed: int, tier: str) -> None:
+def job_positions(col: Collector, seed: int, tier: str, backend: str = "default") -> None:
     """every unserialisable kind at every position of a fixed 4-item sequence."""
     good = [["typed", "request", {"jsonrpc": "2.0", "id": 1, "method": "a", "params": {"t": "x\ny "}}], ["dict", {"jsonrpc": "2.0", "method": "b"}],
             ["str", {"jsonrpc": "2.0", "id": "2", "result": {"n": None}}, False, True], ["typed", "unified", {"jsonrpc": "2.0", "id": 3, "error": {"code": -1, "message": "é"}}],
@@ -408,6 +436,13 @@ def job_positions(col: Collector, seed: int, tier: str) -> None:
         col.record(case, check(case))
         case = {"items": [["bad", kind]] + good, "pending_streams": 2}
         col.record(case, check(case))
+    for cls in ("request", "notification"):
+        w0 = {"jsonrpc": "2.0", "method": "notifications/progress", "params": {"progress": 1}}
+        if cls == "request":
+            w0["id"] = "r1"
+        for between in ([], [["dict", {"jsonrpc": "2.0", "method": "b"}]], [["str", {"jsonrpc": "2.0", "method": "c"}, False, True]], [["bad", "object"]], [["typed", "notification", {"jsonrpc": "2.0", "method": "d"}]]):
+            case = {"items": [["typed", cls, w0]] + between + [["resend", 0, {"progress": 2}]] + between + [["resend", 0, {"progress": 3, "n": None}]]}
+            col.record(case, check(case))
     col.exhaustive_parts.append("each of 7 unserialisable kinds at each of 6 positions of a fixed 5-item sequence (incl. a null-id error reply)")
 
 
@@ -456,9 +491,11 @@ JOBS = {"hyp": job_hyp, "positions": job_positions, "real": job_real, "big_inbou
 
 
 def jobs(tier: str):
+    # the built-in model base (Pydantic absent) serialises typed messages through the package's own JSON layer: same oracle
+    fb = {"backend": "fallback", "_env": {"MCP_FORCE_FALLBACK": "1"}}
     if tier == "quick":
-        return [("hyp", {"shard": s, "n": 150}) for s in range(10)] + [("positions", {}), ("big_inbound", {})]
-    return [("hyp", {"shard": s, "n": 2500}) for s in range(11)] + [("positions", {}), ("big_inbound", {})] + [("real", {"shard": s, "n": 60}) for s in range(4)]
+        return [("hyp", {"shard": s, "n": 150}) for s in range(10)] + [("positions", {}), ("big_inbound", {})] + [("hyp", dict(fb, shard=20, n=150)), ("positions", dict(fb))]
+    return [("hyp", {"shard": s, "n": 2500}) for s in range(11)] + [("hyp", dict(fb, shard=20 + s, n=1500)) for s in range(2)] + [("positions", dict(fb))] + [("positions", {}), ("big_inbound", {})] + [("real", {"shard": s, "n": 60}) for s in range(4)]
 
 
 def shrink(signature: str, seed: int):
